@@ -45,6 +45,7 @@ class OblList(list):
 class Exec:
     def __init__(self, decisions=(), assumptions=()):
         self.dec = list(decisions)
+        self.dec_pos = []
         del REGISTRY[:]
         self.i = 0
         self.conds = list(assumptions)
@@ -91,6 +92,7 @@ class Exec:
         nk = z3.simplify(z3.Not(c))
         self.known[nk.get_id()] = (nk, not d)
         self.conds.append(c if d else nk)
+        self.dec_pos.append(len(self.conds) - 1)      # where the condition of this decision sits in the path condition (used for infeasible-branch pruning)
         return d
 
     def choose(self, n, tag='choice'):
